@@ -25,7 +25,7 @@ ALLOWED = allowed('C19')
 RT = part('rt', 0)                 # request type: 0 response, 1 stream, 2 channel, 3 fire-and-forget, 4 metadata-push
 AUTH = part('auth', [0, 0])        # [verifier: 0 none / 1 accepts / 2 rejects, auth entry: 0 absent / 1 simple / 2 bearer]
 DECOYS = part('decoys', None)      # None: symbolic
-STYLES = part('styles', [0, 1, 2, 3])
+STYLES = part('styles', [0, 1, 2, 3, 4])
 POSITIONS = part('positions', [0, 1, 2])
 TYPES = ('response', 'stream', 'channel', 'fire_and_forget', 'metadata_push')
 ROUTES = ('a', 'b')
@@ -37,8 +37,19 @@ def fixlen(b, n):
     return struct.pack('>%dB' % n, *[b[i] for i in range(n)])
 
 
+class Msg:
+    """application message type for handlers that declare an annotated payload parameter (style 4)"""
+
+    def __init__(self, raw):
+        self.raw = raw
+
+
+def _deserialize(cls, payload):
+    return cls(bytes(payload.data or b'')) if cls is Msg else payload
+
+
 def _make_router(log, t_reg, u_reg, d_reg, style, target_type, target_route):
-    router = RequestRouter()
+    router = RequestRouter(payload_deserializer=_deserialize) if style == 4 else RequestRouter()
 
     def mk(name, tname):
         """handler in parameter style `style`; returns what its interaction type expects"""
@@ -66,9 +77,14 @@ def _make_router(log, t_reg, u_reg, d_reg, style, target_type, target_route):
             async def h(composite_metadata):
                 log.append((name, None, len(composite_metadata.items)))
                 return result()
-        else:
+        elif style == 3:
             async def h(p: Payload, cm: CompositeMetadata):
                 log.append((name, bytes(p.data or b''), len(cm.items)))
+                return result()
+        else:
+            async def h(message: Msg, payload: Payload, composite_metadata):
+                ok = isinstance(message, Msg) and isinstance(payload, Payload) and message.raw == bytes(payload.data or b'')
+                log.append((name, bytes(payload.data or b'') if ok else b'<parameters-not-as-annotated>', len(composite_metadata.items)))
                 return result()
         return h
 
@@ -89,20 +105,20 @@ def c_dispatch(t_reg: bool, u_reg: bool, d_reg: bool, style: int, ri: int, pos: 
     A real server with RoutingRequestHandler.  Route table: handler for the target (type RT, requested route)
     registered or not, unknown-route handler for RT registered or not, every OTHER (type, route) handler and other
     types' unknown handlers (decoys) registered or not; handlers in parameter style 0..3 (none / payload / annotated
-    composite metadata / both).  Request of type RT with route in {a, b, unregistered}, the route entry first /
+    composite metadata / both / a deserialized message type + the raw payload + composite metadata).  Request of type RT with route in {a, b, unregistered}, the route entry first /
     middle / last in the composite metadata (optionally with a second tag), an authentication entry and a verifier
     as in AUTH, a filler entry with symbolic content; a second, fully populated RequestRouter exists in the process but is
     not installed on this server.  Oracle = reference dispatch: exactly the right handler ran
     exactly once with the right arguments, the requester sees its value, or an error on that request alone; with a
     verifier configured NO handler of any type runs unless an authentication entry is present and accepted.
 
-    pre: 0 <= style <= 3 and 0 <= ri <= 2 and 0 <= pos <= 2 and style in STYLES and pos in POSITIONS
+    pre: 0 <= style <= 4 and 0 <= ri <= 2 and 0 <= pos <= 2 and style in STYLES and pos in POSITIONS
     pre: DECOYS is None or d_reg == DECOYS
     pre: len(filler) == 2
     post: _ in ALLOWED
     """
     filler = fixlen(filler, 2)
-    style = conc(style, 0, 3)
+    style = conc(style, 0, 4)
     ri = conc(ri, 0, 2)
     pos = conc(pos, 0, 2)
     t_reg, u_reg, d_reg, two_tags = concb(t_reg), concb(u_reg), concb(d_reg), concb(two_tags)
@@ -204,9 +220,9 @@ def c_dispatch(t_reg: bool, u_reg: bool, d_reg: bool, style: int, ri: int, pos: 
                 devs.append('C19:wrong-handler-dispatched:%s-instead-of-%s' % (','.join(ran) or 'none', want))
             else:
                 name, pdata, ncm = log[0]
-                if style in (1, 3) and pdata != (b'DATA' if RT != 4 else b''):
+                if style in (1, 3, 4) and pdata != (b'DATA' if RT != 4 else b''):
                     devs.append('handler-got-wrong-payload')
-                if style in (2, 3) and ncm != len(entries):
+                if style in (2, 3, 4) and ncm != len(entries):
                     devs.append('handler-got-wrong-composite-metadata')
                 if RT == 0:
                     if errs or len(pays) != 1 or bytes(pays[0].data) != ('R:' + want).encode():
